@@ -88,7 +88,6 @@ package mux
 //@   ensures result ==> s.held == old(s.held) + n
 //@   ensures !result ==> s.held == old(s.held)
 //@   assigns s.held
-//@ extern quiet (connProvider).NewConnection
 //@ extern quiet (connProvider).CloseCh
 //@ extern quiet (*yamux.Session).Ping
 //@ extern quiet (*yamux.Session).RemoteAddr
@@ -100,10 +99,21 @@ package mux
 //@   ensures result1 == nil ==> result0 != nil && !result0.closed
 //@   assigns nothing
 // Handing the session to the manager transfers the permit with it (released by the session's afterShutdown callback).
-//@ extern $m.addNewMux@(*muxProvider).Start$2
+// opened / disposed: connections the loop has obtained, and connections it has closed or handed to the manager (ghost)
+//@ ghost muxProvider.opened int
+//@ ghost muxProvider.disposed int
+//@ extern (connProvider).NewConnection@(*muxProvider).Start$2(p)
+//@   trusted establisher / receiver: a new open connection or an error
+//@   ensures result1 == nil ==> result0 != nil && m.opened == old(m.opened) + 1
+//@   ensures result1 != nil ==> m.opened == old(m.opened)
+//@   assigns m.opened
+//@ extern (net.Conn).Close@(*muxProvider).Start$2(c)
+//@   ensures c.closed && m.disposed == old(m.disposed) + 1
+//@   assigns c.closed, m.disposed
+//@ extern $m.addNewMux@(*muxProvider).Start$2(s, c)
 //@   requires @permit_transferred: m.muxPermits.held == 1
-//@   ensures m.muxPermits.held == 0
-//@   assigns m.muxPermits.held
+//@   ensures m.muxPermits.held == 0 && m.disposed == old(m.disposed) + 1
+//@   assigns m.muxPermits.held, m.disposed
 
 // Every iteration starts without permits: each failure branch releases exactly what it acquired, a successful
 // iteration hands its permit to the new session, the ping-failure branch closes the session and the connection
@@ -113,7 +123,13 @@ package mux
 //@   requires m != nil && m.muxPermits != nil && m.muxPermits.held == 0
 //@   ensures @exit_only_on_shutdown: m.lifetime.Err() != nil
 //@   callpre Release.3: @ping_failure_closes: session != nil && session.closed && conn.closed
-//@   loop 1 invariant m != nil && m.muxPermits != nil && m.muxPermits.held == 0
+// a connection the loop obtained is closed on every path that does not hand it to the manager: a failed session
+// set-up (no session owns it), and every way out of the loop (defect D15, fixed: two shutdown paths and the
+// set-up failure path left it open)
+//@   callpre Release.2: @setup_failure_closes_conn: conn.closed
+//@   requires m.opened == m.disposed
+//@   ensures @nothing_left_open: m.opened == m.disposed
+//@   loop 1 invariant m != nil && m.muxPermits != nil && m.muxPermits.held == 0 && m.opened == m.disposed
 
 // The health probe is permit-neutral.
 //@ contract (*muxProvider).HasConnectionsAvailable
